@@ -13,6 +13,8 @@ import (
 	"net/http"
 	"net/url"
 	"os"
+	"os/exec"
+	"path/filepath"
 	"runtime"
 	"strings"
 	"syscall"
@@ -792,14 +794,34 @@ func runC11(c *lib.Ctx) error {
 		runM(c11in{Kind: "myers", Stream: "grow", E: e, F: f})
 	}
 
-	// ---------- L2: MPDDiff on generated trees
-	nTree := map[string]int{"unique": 500, "idless": 60, "reorder": 40, "stlattr": 20, "errors": 40}
-	if c.Thorough() {
-		nTree = map[string]int{"unique": 5000, "idless": 400, "reorder": 300, "stlattr": 100, "errors": 300}
+	for i := 0; i < nGrow; i++ {
+		// the reverse: many old elements, few new ones
+		m := 1 + rng.Intn(4)
+		n := 3*m + 5 + rng.Intn(6)
+		e, f := make([]int, n), make([]int, m)
+		for k := range e {
+			e[k] = 1000 + k
+		}
+		for k := range f {
+			f[k] = 2000 + k
+		}
+		if i%3 == 0 {
+			f[0] = e[0]
+		}
+		if i%3 == 1 {
+			f[m-1] = e[n-1]
+		}
+		runM(c11in{Kind: "myers", Stream: "shrink", E: e, F: f})
 	}
-	for _, stream := range []string{"unique", "idless", "reorder", "stlattr", "errors"} {
+
+	// ---------- L2: MPDDiff on generated trees
+	nTree := map[string]int{"unique": 500, "idless": 60, "reorder": 40, "stlattr": 20, "descr": 60, "errors": 40}
+	if c.Thorough() {
+		nTree = map[string]int{"unique": 5000, "idless": 400, "reorder": 300, "stlattr": 100, "descr": 400, "errors": 300}
+	}
+	for _, stream := range []string{"unique", "idless", "reorder", "stlattr", "descr", "errors"} {
 		for i := 0; i < nTree[stream]; i++ {
-			g := &treeGen{rng: rng, idless: stream == "idless", reorder: stream == "reorder", stlattr: stream == "stlattr"}
+			g := &treeGen{rng: rng, idless: stream == "idless", reorder: stream == "reorder", stlattr: stream == "stlattr", descr: stream == "descr"}
 			pt := int64(1700000000 + rng.Intn(1000000))
 			ttl := []int{5, 30, 60, 600}[rng.Intn(4)]
 			old := g.mpd(pt, ttl)
@@ -896,6 +918,24 @@ func runC11(c *lib.Ctx) error {
 		nFile++
 	}
 	c.Res.ModelCases = len(myersTerms) + len(treeTerms)
+	if c.Thorough() {
+		// the larger bounded sweep of the Myers model (not built by make): explicit coqc under timeout
+		cwd, _ := os.Getwd()
+		coqDir := filepath.Join(filepath.Dir(cwd), "coq")
+		cmd := exec.Command("timeout", "1500", "coqc", "-Q", "theories", "Verif", "-Q", "gen", "VerifGen",
+			"-o", filepath.Join(c.Out, "C11Bounded.vo"), "thorough/C11Bounded.v")
+		cmd.Dir = coqDir
+		out, err := cmd.CombinedOutput()
+		if err != nil || !strings.Contains(string(out), "Closed under the global context") {
+			tail := string(out)
+			if len(tail) > 600 {
+				tail = tail[len(tail)-600:]
+			}
+			c.Fail("thorough-sweep", "proof:C11Bounded", "coq/thorough/C11Bounded.v (Myers model valid for all pairs of lists of length <= 5 over 3 letters) does not check: "+tail, c11in{Kind: "coq"})
+		} else {
+			c.Res.Notes = append(c.Res.Notes, "thorough: coq/thorough/C11Bounded.v checked (myers_valid_bounded_3_5: all 132496 pairs of lists of length <= 5 over 3 letters; closed under the global context)")
+		}
+	}
 	return nil
 }
 
